@@ -378,7 +378,9 @@ namespace TAO_PEGTL_NAMESPACE
 
       [[nodiscard]] const char* at( const TAO_PEGTL_NAMESPACE::position& p ) const noexcept
       {
-         return this->begin() + p.byte;
+         // p.byte counts from the initial byte offset the input was constructed with.
+         const std::size_t initial = this->byte() - static_cast< std::size_t >( this->current() - this->begin() );
+         return this->begin() + ( p.byte - initial );
       }
 
       [[nodiscard]] const char* begin_of_line( const TAO_PEGTL_NAMESPACE::position& p ) const noexcept
